@@ -553,6 +553,14 @@ func class(cs []*ctxSpec, sni string, protos []string) string {
 			break
 		}
 	}
+	for _, c := range cs {
+		for _, s := range c.sans {
+			if s == "" {
+				fl = append(fl, "emptysan")
+				break
+			}
+		}
+	}
 	up := false
 	post := false
 	for i, c := range cs {
@@ -1145,6 +1153,10 @@ func Run(c *hx.Ctx) {
 	defer l.ln.Close()
 
 	only := os.Getenv("C13_ONLY") // development aid: run a single family of kinds
+	if only == "lb" {
+		runLabelBoundaries(c, &gen{r: c.Rng.Fork().Fork().Fork().Fork().Fork(), c: c}, l, c.N(250, 1500))
+		return
+	}
 	if only == "" || only == "res" {
 		runResume(c, l, c.N(1, 3))
 	}
@@ -1179,6 +1191,8 @@ func Run(c *hx.Ctx) {
 	}
 	runPolicyTables(c)
 	runBoundaries(c, l)
+	// SNI strings on every label boundary of a stored name (labels.go); own generator stream
+	runLabelBoundaries(c, &gen{r: c.Rng.Fork().Fork().Fork().Fork().Fork(), c: c}, l, c.N(250, 1500))
 	runInspector(c, g, l)
 	runTrustServer(c, g, l, c.N(2, 6))
 	runTrustClient(c, g, l)
